@@ -482,7 +482,9 @@ func (self *PathNode) handleChild(in *[]PathNode, lp *int, cp *int, p *binary.Bi
 
 	if tt.IsComplex() {
 		if recurse {
-			p.Buf = p.Buf[start:]
+			// scan the children inside the bytes of this node only: a trailing repeated/map field
+			// of a sub message must not run into the following field of its parent
+			p.Buf = p.Buf[start:p.Read]
 			p.Read = 0
 			parentDesc := desc
 			messageLen := 0
